@@ -269,6 +269,87 @@ def local_stage_cases(rng, scratch: Path, rep: Report, n):
         shutil.rmtree(root, ignore_errors=True)
 
 
+def cache_kill_probe(ctx, rep: Report, n):
+    """A command killed while it writes a snapshot into the local cache leaves a truncated cache entry; every later
+    command using that cache directory must still work and see the same repository."""
+    for i in range(n):
+        seed = ctx.rng.randint(0, 2 ** 31)
+        rng = random.Random(seed)
+        wd = ctx.scratch / f'cachekill{i}'
+        wd.mkdir(parents=True, exist_ok=True)
+        world = World(seed, rng.random() < 0.7, wd, concurrent=2, delay=0.0, nusers=1, chunking=(16, 64))
+        cache = wd / 'cache'
+        frac = rng.choice([0.0, 0.3, 0.5, 0.97])
+        cmdname = rng.choice(['clean', 'delete', 'list'])
+        problems = []
+
+        async def go():
+            await world.setup()
+            u = world.users[0]
+            names = []
+            for _ in range(2):
+                d, f = world.make_files(u['name'])
+                res, _ = await world.snapshot(u, d, f)
+                names.append(res.name)
+            orig = Path.write_bytes
+
+            def partial(self, data):
+                if str(self).startswith(str(cache)):
+                    orig(self, data[:int(len(data) * frac)])
+                    raise _Kill('killed inside the cache write')
+                return orig(self, data)
+            Path.write_bytes = partial
+            try:
+                r = await world.unlocked(u, cache=cache)
+                if cmdname == 'clean':
+                    await r.clean()
+                elif cmdname == 'delete':
+                    await r.delete_snapshots([names[0]], confirm=False)
+                else:
+                    with contextlib.redirect_stdout(io.StringIO()):
+                        await r.list_snapshots()
+            except BaseException:
+                pass
+            finally:
+                Path.write_bytes = orig
+            await asyncio.sleep(0.02)
+            # afterwards, with the same cache directory
+            for what in ('list', 'restore', 'clean', 'snapshot'):
+                try:
+                    r2 = await world.unlocked(u, cache=cache)
+                    if what == 'list':
+                        with contextlib.redirect_stdout(io.StringIO()):
+                            await r2.list_snapshots()
+                            await r2.list_files()
+                    elif what == 'restore':
+                        for n_, s_ in world.snaps.items():
+                            if s_['location'] in world.backend.objects:
+                                out = wd / f'out-{n_[:6]}'
+                                out.mkdir(exist_ok=True)
+                                res = await r2.restore(snapshot_regex='^' + n_ + '$', path=out)
+                                for path, content in s_['files'].items():
+                                    t = Path(out, *Path(path).parts[1:])
+                                    if not t.is_file() or t.read_bytes() != content:
+                                        problems.append(f'restore after a {cmdname} killed inside a cache write yields wrong content')
+                    elif what == 'clean':
+                        await r2.clean()
+                    else:
+                        d, f = world.make_files(u['name'])
+                        await r2.snapshot(paths=[d])
+                except Exception as e:
+                    problems.append(f'{what} fails after a {cmdname} was killed inside a cache write ({int(frac * 100)} % written): {type(e).__name__}: {str(e)[:80]}')
+                    break
+
+        with quiet()[0], quiet()[1]:
+            asyncio.run(go())
+        rep.case(('cache-kill', seed, cmdname, frac), nontrivial=frac > 0)
+        rep.count('cache_kill_probe')
+        for pmsg in problems:
+            rep.violations.append({'what': pmsg, 'signature': {'kind': 'unusable_after_cache_kill', 'command': cmdname},
+                                   'replay': {'probe': 'cache_kill', 'seed': seed, 'command': cmdname, 'fraction': frac}})
+        shutil.rmtree(wd, ignore_errors=True)
+
+
 def _run(ctx, nscen, max_points, nlocal, rep):
     cases, exps = [], []
     for _ in range(nscen):
@@ -282,6 +363,7 @@ def _run(ctx, nscen, max_points, nlocal, rep):
         cases += mc
         exps += [(sd, e) for e in ex]
     local_stage_cases(ctx.rng, ctx.scratch, rep, nlocal)
+    cache_kill_probe(ctx, rep, max(4, nlocal // 10))
     if cases:
         traces, err = repo_hist.model_eval(cases)
         if traces is None:
